@@ -98,10 +98,21 @@ def handle (args : List String) : String :=
       let some A := parseMat? (2 * n) A | return "bad-op"
       let some B := parseMat? (2 * n) B | return "bad-op"
       return matStr (2 * n) (matMul (2 * n) A B)
+  | ["i2b", n, i] => Id.run do
+      let some n := n.toNat? | return "bad-op"
+      let some i := i.toNat? | return "bad-op"
+      match intToBitarray i n with
+      | none => return "error:OverflowError"
+      | some b => return (if b.isEmpty then "-" else bitsStr b)
+  | ["b2i", n, bits] => Id.run do
+      let some n := n.toNat? | return "bad-op"
+      let some b := (if bits = "-" then some [] else parseBits? bits) | return "bad-op"
+      if b.length ≠ n then return "bad-op"
+      return toString (bitarrayToInt b)
   | ["num", n, kind] => Id.run do
       let some n := n.toNat? | return "bad-op"
       if n = 0 then return "error:assert"
-      match kind with
+      match kind.toLower with   -- `kind = str(kind).lower()` (`spf2.py:37`)
       | "base" => return natListStr (flatOfPairs (basePairs n))
       | "order" => return toString (order n)
       | "coset" => return natListStr (cosetNumbers n)
